@@ -209,6 +209,38 @@ class Run:
                         tot = lift2("+", tot, a0.cells[ix])
                     return tot
                 return Opaque("np.sum of a >1-D grid")
+            if name == "numpy.einsum" and isinstance(a0, str) and len(args) > 1 and all(isinstance(g_, Grid) for g_ in args[1:]) and "->" in a0:
+                # explicit signature over per-bin blocks: the trailing letter of a block that carries the implied bin axis is the bin label
+                lhs_, out_ = a0.replace(" ", "").split("->"); subs_ = lhs_.split(",")
+                if len(subs_) != len(args) - 1: return Opaque("einsum signature")
+                binl = set(); eff = []
+                for sb, g_ in zip(subs_, args[1:]):
+                    if len(sb) == len(g_.shape) + 1 and g_.bins: binl.add(sb[-1]); eff.append(sb[:-1])
+                    elif len(sb) == len(g_.shape): eff.append(sb)
+                    else: return Opaque("einsum operand rank")
+                if len(binl) > 1 or any(ch in e_ for ch in binl for e_ in eff) or any(ch not in out_ for ch in binl): return Opaque("einsum bin axis")
+                outl = [ch for ch in out_ if ch not in binl]
+                ext = {}
+                for e_, g_ in zip(eff, args[1:]):
+                    for ch, n_ in zip(e_, g_.shape):
+                        if ext.setdefault(ch, n_) != n_: return Mismatch(f"einsum extents differ for '{ch}'")
+                if any(ch not in ext for ch in outl): return Opaque("einsum output letter")
+                suml = [ch for ch in ext if ch not in outl]
+                import itertools
+                res = {}
+                for oi in itertools.product(*[range(ext[ch]) for ch in outl]):
+                    tot = X.const(0)
+                    for si in itertools.product(*[range(ext[ch]) for ch in suml]):
+                        asg = dict(zip(outl, oi)); asg.update(zip(suml, si))
+                        term = X.const(1)
+                        for e_, g_ in zip(eff, args[1:]):
+                            cv = g_.cells[tuple(asg[ch] for ch in e_)]
+                            if is_opaque(cv): return cv
+                            term = lift2("*", term, cv)
+                        tot = lift2("+", tot, term)
+                    res[oi] = tot
+                if not outl: return res[()]
+                return Grid(tuple(ext[ch] for ch in outl), res, bins=bool(binl))
             if name == "numpy.linalg.cond":
                 KIND["cond_T"] = "pos"
                 return X.var("cond_T")
